@@ -525,3 +525,74 @@ B("C04", "combined-reordered-sum", DIS,
                     beta * cat(unit1, unit2))""",
   """            c = cat(unit1, unit2)
             return c * beta + pos(unit1, unit2) * alpha""")
+
+# =============================================================================================
+# C07
+# =============================================================================================
+FINAL = "        disorders, alignments = disorders[:i_chosen - 1], alignments[:i_chosen - 1]  # removing empty unitary alignment"
+M("C07", "slice-keeps-all-empty", DIS, FINAL, "        disorders, alignments = disorders[:i_chosen], alignments[:i_chosen]", "R-C07-7")
+M("C07", "slice-drops-two", DIS, FINAL, "        disorders, alignments = disorders[:i_chosen - 2], alignments[:i_chosen - 2]", "R-C07-7")
+M("C07", "slice-one-array-only", DIS, FINAL, "        disorders, alignments = disorders[:i_chosen - 1], alignments[:i_chosen]", "R-C07-7")
+M("C07", "growth-test-strict", DIS, "                if i_chosen == chunk_size:", "                if i_chosen > chunk_size:", "R-C07-5",
+  "out-of-bounds store at i == chunk_size (numba: silent)")
+M("C07", "chunk-size-not-updated", DIS, "                    chunk_size += add_size\n", "", "R-C07-5")
+M("C07", "buffers-grow-differently", DIS,
+  "                    alignments = extend_right_alignments(alignments, add_size)",
+  "                    alignments = extend_right_alignments(alignments, add_size + 1)", "R-C07-5")
+M("C07", "extend-loses-last-cell", NUM,
+  "    new_array[:len(arr)] = arr\n", "    new_array[:len(arr) - 1] = arr[:-1]\n", "R-C07-6")
+M("C07", "filter-strict", DIS, "            if disorder <= criterium:", "            if disorder < criterium:", "R-C07-3")
+M("C07", "criterium-without-n", DIS,
+  "        criterium = c2n * delta_empty * nb_annotators", "        criterium = c2n * delta_empty", "R-C07-3",
+  "cut at delta_empty instead of n*delta_empty: identical for the tests' optimal alignments, loses candidates elsewhere")
+M("C07", "sizes-without-null", DIS,
+  "            sizes_with_null[annotator_id] = len(unit_arrays[annotator_id]) + 1",
+  "            sizes_with_null[annotator_id] = len(unit_arrays[annotator_id])", "R-C07-1")
+M("C07", "cost-transposed-indices", DIS,
+  """                    disorder += precomputation[annot_a][annot_b][unitary_alignment[annot_a],
+                                                                 unitary_alignment[annot_b]]""",
+  """                    disorder += precomputation[annot_a][annot_b][unitary_alignment[annot_b],
+                                                                 unitary_alignment[annot_a]]""", "R-C07-2")
+M("C07", "cost-includes-self-pairs", DIS,
+  "            for annot_a in range(nb_annotators):\n                for annot_b in range(annot_a):\n                    disorder +=",
+  "            for annot_a in range(nb_annotators):\n                for annot_b in range(annot_a + 1):\n                    disorder +=", "R-C07-2")
+M("C07", "empty-corner-unset", DIS,
+  """                for annot_b in range(nb_annot_b + 1):
+                    matrix[nb_annot_a, annot_b] = delta_empty
+                for annot_a in range(nb_annot_a + 1):
+                    matrix[annot_a, nb_annot_b] = delta_empty""",
+  """                for annot_b in range(nb_annot_b):
+                    matrix[nb_annot_a, annot_b] = delta_empty
+                for annot_a in range(nb_annot_a):
+                    matrix[annot_a, nb_annot_b] = delta_empty""", "R-C07-2", "np.empty corner: the all-empty tuple gets a garbage cost")
+M("C07", "empty-row-zero", DIS,
+  "                    matrix[nb_annot_a, annot_b] = delta_empty", "                    matrix[nb_annot_a, annot_b] = 0", "R-C07-2")
+M("C07", "odometer-carry-le", NUM, "            if current[i] < sizes[i]:", "            if current[i] <= sizes[i]:", "R-C07-8")
+M("C07", "odometer-reset-to-one", NUM, "            current[i] = 0\n        else:", "            current[i] = 1\n        else:", "R-C07-8")
+M("C07", "tuple-stored-after-increment", DIS,
+  """                disorders[i_chosen] = disorder
+                alignments[i_chosen] = unitary_alignment
+                i_chosen += 1""",
+  """                disorders[i_chosen] = disorder
+                i_chosen += 1
+                alignments[i_chosen] = unitary_alignment""", "R-C07-4")
+M("C07", "normalised-twice", DIS,
+  "        disorders /= c2n\n        return disorders, alignments", "        disorders /= c2n\n        disorders /= c2n\n        return disorders, alignments", "R-C07-7")
+B("C07", "growth-test-ge", DIS, "                if i_chosen == chunk_size:", "                if i_chosen >= chunk_size:")
+B("C07", "empty-row-without-corner", DIS,
+  """                for annot_b in range(nb_annot_b + 1):
+                    matrix[nb_annot_a, annot_b] = delta_empty""",
+  """                for annot_b in range(nb_annot_b):
+                    matrix[nb_annot_a, annot_b] = delta_empty""", "corner still written by the column loop")
+B("C07", "criterium-reordered", DIS,
+  "        criterium = c2n * delta_empty * nb_annotators", "        criterium = nb_annotators * c2n * delta_empty")
+B("C07", "pairs-upper-triangle", DIS,
+  "            for annot_a in range(nb_annotators):\n                for annot_b in range(annot_a):\n                    disorder += precomputation[annot_a][annot_b][unitary_alignment[annot_a],\n                                                                 unitary_alignment[annot_b]]",
+  "            for annot_b in range(nb_annotators):\n                for annot_a in range(annot_b + 1, nb_annotators):\n                    disorder += precomputation[annot_a][annot_b][unitary_alignment[annot_a],\n                                                                 unitary_alignment[annot_b]]")
+B("C07", "locals-renamed", DIS,
+  """                disorders[i_chosen] = disorder
+                alignments[i_chosen] = unitary_alignment
+                i_chosen += 1""",
+  """                alignments[i_chosen] = unitary_alignment
+                disorders[i_chosen] = disorder
+                i_chosen += 1""")
